@@ -11,7 +11,8 @@ oracle:  well-typed fragment programs x ONE local edit from the property's list 
          the real checker must report an error whose span lies inside the edited construct; the
          unedited program must be accepted.  Failures must fall in a listed known class, decided
          by the model: the class's fix switch (and no smaller set) makes the model report an
-         error inside the construct."""
+         error inside the construct.  elif-unchecked and guard-unchecked are repaired in /repo: the
+         faithful model has those switches on, so a regression shows up as a failing input."""
 import copy
 import itertools
 import json
@@ -25,7 +26,9 @@ INT, BOOL, STR, UNIT, UNK = ("int",), ("bool",), ("str",), ("unit",), ("unk",)
 
 KINDS = ["unknown", "mismatch", "fieldmismatch", "immutable", "try-nonresult", "try-errtype", "nonexhaustive",
          "missingfield", "dupfield", "nofield", "positional", "arg", "tryfn", "pattern", "ghost"]
-FIXES = ["elif", "guard", "outer", "args", "tryfn", "arith", "pat", "deps"]
+FIXES = ["elif", "guard", "outer", "args", "tryfn", "arith", "pat", "deps"]     # order of Build_fixes
+REAL = ("elif", "guard")      # switches that are ON in the faithful model `real` (repaired in /repo)
+OPEN = [f for f in FIXES if f not in REAL]
 FIX_FINDING = {"elif": "elif-unchecked", "guard": "guard-unchecked", "outer": "nested-reassign", "args": "arg-unchecked",
                "tryfn": "try-in-nonresult-fn", "arith": "operand-unchecked", "pat": "pattern-unchecked", "deps": "deps-unchecked"}
 
@@ -1310,7 +1313,7 @@ def run(chk):
 
     # ---- model: events under `real` (tie), `fixed` (generator validation) and each single fix (class decision)
     live = [c for c in cases if not c["skip"]]
-    SETS = [(), tuple(FIXES)] + [(f,) for f in FIXES]
+    SETS = [REAL, tuple(FIXES)] + [REAL + (f,) for f in OPEN]
     if model_ok:
         terms = []
         for c in live:
@@ -1319,7 +1322,7 @@ def run(chk):
         ev = model_eval(terms, "c03a")
         for c, e in zip(live, ev):
             c["m_real"], c["m_fixed"] = e[0], e[1]
-            c["m_single"] = dict(zip(FIXES, e[2:]))
+            c["m_single"] = dict(zip(OPEN, e[2:]))
 
     def errs(evs):
         return set((k, i) for k, i in evs if k != 14)
@@ -1370,7 +1373,7 @@ def run(chk):
         c["class"] = None
         c["model_detects"] = bool(model_ok and hits(c, c["m_real"]))
         if model_ok and not c["model_detects"]:
-            for f in FIXES:
+            for f in OPEN:
                 if hits(c, c["m_single"][f]):
                     c["class"] = (f,)
                     break
@@ -1380,8 +1383,8 @@ def run(chk):
         for n in (2, 3):
             if not pending:
                 break
-            cs = list(itertools.combinations(FIXES, n))
-            ev = model_eval([(cs, c["pj"]) for c in pending], "c03b%d" % n)
+            cs = list(itertools.combinations(OPEN, n))
+            ev = model_eval([([REAL + x for x in cs], c["pj"]) for c in pending], "c03b%d" % n)
             still = []
             for c, e in zip(pending, ev):
                 for fx, evs in zip(cs, e):
@@ -1441,6 +1444,17 @@ def run(chk):
         r = run_real(binary, [{"main": w["main"], "deps": w.get("deps", [])}])[0]
         if r["parse"] == "ok" and not r["errors"]:
             chk.known(fid, "%s: %s" % (fid, f["summary"]))
+
+    # repaired findings: their witnesses must now be rejected
+    for f in chk.findings:
+        w = f.get("witness")
+        if f.get("status") != "fixed" or not isinstance(w, dict) or "main" not in w:
+            continue
+        r = run_real(binary, [{"main": w["main"], "deps": w.get("deps", [])}])[0]
+        chk.count_case(("fixed-witness", f["id"]), nontrivial=True)
+        if r["parse"] == "ok" and not r["errors"]:
+            fails.append({"case": "witness of repaired finding " + f["id"], "edit": f["id"], "why": "the repaired defect is back: the witness is accepted again",
+                          "source": w["main"], "input": {"main": w["main"], "deps": w.get("deps", [])}, "commit": f.get("commit")})
 
     chk.coverage["rule"] = ("a case = (well-typed generated program | one local edit of it, context path); non-trivial = an edited (ill-typed) program; "
                             "distinct by (program, edit kind, construct id, in-dependency)")
